@@ -37,6 +37,22 @@ CHECKS = {
               'LogNormalModel.compute_sensitivities and in the non-centred compute_individual_parameters) are carved out by obligation name.'),
         technique='contract-based deductive verification: symbolic execution of the real function bodies + Sigma-normal-form/z3 discharge; assume-guarantee stubs for composition',
     ),
+    'C06': dict(
+        category='proof',
+        text=('Deductive proof by law algebra over ghost random atoms: the real sample methods of the four error models and of the '
+              'Gaussian / log-normal (centred and non-centred, the latter composed with the model\'s own compute_individual_parameters), '
+              'truncated-Gaussian, pooled and heterogeneous population models are executed with a ghost generator whose draws are '
+              'symbolic i.i.d. atoms; the law of each traced entry (kind, location, scale^2, support) is proved identical to the law '
+              'scored by the log-likelihood (C04/C05 specification), entries are shown to use disjoint atoms (independence), '
+              'get_mean_and_std is proved equal to the closed-form moments, and the composed sampler is verified against interface '
+              'stubs (own parameter slice, own covariate columns, one shared advancing generator, own output columns).  Sizes symbolic.'),
+        design_ref='DESIGN.md section 4 (C06)',
+        note=('Assumed contracts of numpy Generator.normal/lognormal/choice, default_rng, numpy.random.seed and scipy truncnorm.rvs '
+              '(pvc/ghost.py); closure rules of the Gaussian family; floats as reals.  Refuted law obligations are replayed natively by a '
+              'decisive statistical/support test (120000 draws).  One recorded known finding (variance of the constant+multiplicative '
+              'error sampler), identified by its exact residual.  Reduced-model samplers are covered under C08; covariate sampler under C07.'),
+        technique='contract-based deductive verification: symbolic execution with ghost RNG state + law-algebra lemmas + Sigma-normal-form/z3',
+    ),
 }
 NOT_APPLICABLE = {}
 
@@ -44,4 +60,5 @@ NOT_APPLICABLE = {}
 CHECK_MODULES = {
     'C04': 'contracts.c04',
     'C05': 'contracts.c05',
+    'C06': 'contracts.c06',
 }
